@@ -163,7 +163,7 @@ Lemma format_record_ok st r st' line :
   format_record st r = Ok (st', line) ->
   exists w1, update_widths (rp_widths st) (rdata r) = Ok w1 /\
   ((rdata r = [] /\
-    st' = mkRP w1 (rp_order st ++ new_columns (rp_order st) (rdata r)) (rp_term st) /\ line = trim_end (rraw r))
+    st' = mkRP w1 (rp_order st ++ new_columns (rp_order st) (rdata r)) (rp_term st) /\ line = strip_eol (rraw r))
    \/
    (rdata r <> [] /\
     exists w order np cells,
